@@ -226,16 +226,21 @@ def lean_obligations(prop: str, extra_modules: list[str] | None = None) -> dict:
     }
 
 
-def run_driver(lines: list[str]) -> list[str]:
-    """Pipe protocol lines through the Lean model driver; one answer per line."""
+def run_driver(prop: str, lines: list[str]) -> list[str]:
+    """Pipe protocol lines through the property's Lean model driver; one answer per line."""
     if not lines:
         return []
+    mod = f"DirectVerif.Driver.{prop}"
     with lake_lock():
-        # make sure the model oleans exist (no-op when up to date)
-        r = _run(["lake", "build", "DirectVerif"], cwd=LEAN)
+        r = _run(["lake", "build", mod], cwd=LEAN)
         if r.returncode != 0:
-            raise ToolFailure("model library does not build:\n" + (r.stdout + r.stderr)[-3000:])
-    r = _run(["lake", "env", "lean", "--run", "Driver.lean"], cwd=LEAN, input="\n".join(lines) + "\n", timeout=3600)
+            raise ToolFailure("model driver does not build:\n" + (r.stdout + r.stderr)[-3000:])
+        BUILD.mkdir(parents=True, exist_ok=True)
+        main = BUILD / f"Main_{prop}.lean"
+        text = f"import {mod}\ndef main : IO Unit := DirectVerif.Driver.mainWith {mod}.step\n"
+        if not main.exists() or main.read_text() != text:
+            main.write_text(text)
+    r = _run(["lake", "env", "lean", "--run", str(main)], cwd=LEAN, input="\n".join(lines) + "\n", timeout=3600)
     if r.returncode != 0:
         raise ToolFailure("driver failed:\n" + (r.stdout + r.stderr)[-3000:])
     out = r.stdout.rstrip("\n").split("\n")
@@ -345,7 +350,7 @@ def correspond(ctx: Ctx, cases: Iterable[dict]) -> list[dict]:
             impl_out.append(c["impl"]())
         except Exception as e:  # noqa: BLE001 - canonicalised to the error enum
             impl_out.append("err " + err_name(e))
-    model_out = run_driver([c["line"] for c in cases])
+    model_out = run_driver(ctx.prop, [c["line"] for c in cases])
     dis = []
     for c, a, b in zip(cases, impl_out, model_out):
         ctx.count(c.get("key", c["line"]), c.get("nontrivial", True),
